@@ -561,6 +561,13 @@ func (d *decider) decide(cr caseRec, raw json.RawMessage, rs [4]*core.CaseResult
 				if so.Kind == "passref" && desync[so.From] {
 					inDesync = true
 				}
+				for _, p := range so.Deps { // callee reached through a funcref (e.g. pt_call2 -> producer's do_act reads the producer's table)
+					for j := range g.deps(p) {
+						if desync[j] {
+							inDesync = true
+						}
+					}
+				}
 				if inDesync {
 					c.Count("observations_not_comparable_with_twin", 1)
 					if debugOn {
